@@ -58,6 +58,9 @@ def decEvent : List String → Option Event
     pure (.started i o)
   | ["other", i] => i.toNat?.map .other
   | ["finish", i] => i.toNat?.map .finish
+  -- `EPSV <argument>`: 522; whether the handler ends the session is read off the source
+  | ["epsvarg", i] =>
+    if Generated.Verb.epsv.closingCodes.contains 522 then i.toNat?.map .finish else i.toNat?.map .other
   | _ => none
 
 def handle (d : DState) : List String → DState × Option String
